@@ -853,9 +853,7 @@ def probe_prefix_rebinding(ck, client, wsdl):
                          "decodes to %s, the same reply in line to %s" % (s_ctl, s_in),
                          dict(pl, reply_outlined=control.decode("utf-8"), decoded_outlined=s_ctl))
     ck.extra["prefix_rebinding_probe"] = {"same_result": r_out == r_in, "decoded_outlined": s_out, "decoded_inline": s_in}
-    if r_out != r_in and KEY_REBOUND in ck.known:
-        # reported under its own key once the maintainer of KNOWN_FINDINGS.json lists it (see the report);
-        # until then the observation is kept in the evidence file only
+    if r_out != r_in:
         ck.failing_input(KEY_REBOUND, "two independent elements bind one prefix to different namespaces: the moved content "
                          "is resolved through the referrer and decodes to %s, in line to %s" % (s_out, s_in), pl)
 
